@@ -48,7 +48,7 @@ else:
         if only:
             ps = [p for p in ps if p in only]
         if ps:
-            jobs.append((name, pd, ps, 1 if name.endswith("_changed") else 0))
+            jobs.append((name, pd, ps, 1 if "_changed" in name else 0))
 
 results = {}
 for n, (name, pd, ps, want) in enumerate(jobs):
